@@ -716,7 +716,7 @@ func C12(ctx *core.Ctx) error {
 	cov.Set("tlc", map[string]any{"distinct": model.Res.Distinct, "generated": model.Res.Generated, "wall_s": model.Res.Wall, "big": ctx.Thorough(), "invariants": c12Invs})
 	cov.Set("challenge_inputs_differing_from_the_documented_list", layouts)
 	cov.Set("exhaustive", false)
-	return ctx.WriteEvidence("model_checking",
+	return ctx.WriteEvidence("fault_enumeration",
 		"one case = one transformed copy of an honest real-size proof handed to the library's Verify: (instance = system, curve/orientation, parameter sets of prover and verifier, party index) x "+
 			"catalogue row (component replacement: component x index class/index x perturbation; statement component x alteration; session variant; shift row derived by TLC x index class; cross use). "+
 			"distinct = distinct such tuples, all non-trivial (the untransformed proof verifies, the transformed one differs). Verdict: Verify returned false / an error; equivalent replacements (value + group order) are only recorded. "+
